@@ -6,12 +6,18 @@ import time
 VERIF = os.path.dirname(os.path.dirname(os.path.abspath(__file__)))
 
 
+def evidence_dir():
+    # VERIF_EVIDENCE_DIR redirects the output of development-time runs (seed matrix) so that they do not overwrite the
+    # evidence of the registered checks
+    return os.environ.get("VERIF_EVIDENCE_DIR") or os.path.join(VERIF, "evidence")
+
+
 class Report:
-    def __init__(self, prop, tier, seed=0):
+    def __init__(self, prop, tier, seed=0, t0=None):
         self.prop = prop
         self.tier = tier
         self.seed = seed
-        self.t0 = time.time()
+        self.t0 = t0 or time.time()
         self.obligations = []   # dicts: rule, key, ok, detail, where
         self.rule_texts = {}    # rule -> text
         self.floors = {}        # rule -> (measured, floor)
@@ -77,7 +83,7 @@ class Report:
                     print("KNOWN-FINDING: property=%s %s" % (self.prop, known_keys[full]["what"]))
             else:
                 new.append(v)
-        replay_dir = os.path.join(VERIF, "evidence", "replay")
+        replay_dir = os.path.join(evidence_dir(), "replay")
         os.makedirs(replay_dir, exist_ok=True)
         # clear stale replay files of this property
         for f in os.listdir(replay_dir):
@@ -169,7 +175,7 @@ class Report:
             "wall_s": round(time.time() - self.t0, 3),
             "violations": nviol,
         }
-        d = os.path.join(VERIF, "evidence")
+        d = evidence_dir()
         os.makedirs(d, exist_ok=True)
         tmp = os.path.join(d, ".%s.json.tmp" % self.prop)
         with open(tmp, "w") as f:
